@@ -133,10 +133,14 @@ func (s *Store) deleteAndOptionalCloseParent(parent string, closeChannel bool) e
 	// if parent not in map, no error - already gone
 	if children, ok := s.ChildrenByParent[parent]; ok {
 
-		for _, ch := range children {
+		for child, ch := range children {
 			if closeChannel {
 				close(ch)
 			}
+			// keep the two maps consistent: a child whose parent map is gone must not
+			// keep pointing at it (a later delete of the child would store a nil map
+			// under the parent key, and the next Add for that parent would panic)
+			delete(s.ParentByChild, child)
 		}
 
 		delete(s.ChildrenByParent, parent)
